@@ -2,7 +2,9 @@ import re
 """C17 `units for` and `factorize` are dimensionally sound and complete.  DESIGN.md section 4, C17."""
 import hirutil as H
 import hirpp
-from facts import AnchorLost, hir_walk
+import facts
+import k2
+from facts import AnchorLost, hir_walk, ap_str
 
 CORE = "rink_core"
 FK = "rink_core::runtime::eval::eval_query"
@@ -436,19 +438,62 @@ def factorize(chk, F):
     ptxt = H.pat_str(pat).replace(" ", "")
     chk.decide(H.expr_str(it).startswith("quantities.iter()") and ptxt == "Option::Some{0:(unit,name)}", "factorize-structure", fk, "candidates-are-quantities", "%s:%d" % (fn.file, line),
                "candidates are the (dimensionality, name) pairs of the quantity table", "candidate loop is `for %s in %s`" % (ptxt, H.expr_str(it)))
-    txt = "\n".join(hirpp.tree(lbody))
-    divisor_ok = "unit: unit.clone()" in txt and "value: Numeric::one()" in txt
-    q = [s for k, s in H.stmts_of(lbody) if k == "let" and s["pat"].get("name") == "res"]
-    quot_ok = bool(q) and H.expr_str(q[0]["init"]).replace(" ", "") == "(valueDiv&num).unwrap()"
-    rec = [c for c in hir_walk(lbody) if c.get("k") == "Call" and c["f"].get("k") == "Path" and c["f"]["r"].get("path", "").endswith("factorize::factorize")]
-    rec_ok = len(rec) == 1 and H.expr_str(rec[0]["args"][0]) == "&res" and H.expr_str(rec[0]["args"][1]) == "quantities"
-    pushes = [c for c in H.method_calls(lbody, "push") if H.expr_str(c["args"][0]) == "name.clone()"]
-    chk.decide(divisor_ok and quot_ok and rec_ok and len(pushes) == 1, "factorize-structure", fk, "name-paired-with-divisor", "%s:%d" % (fn.file, line),
+    # decided on the MIR (names of locals, a push loop or an `extend(map(..))`, `take(10)` or `truncate(10)` read the same):
+    # item = the (dimensionality, name) pair the candidate loop is at
+    code = [fn] + F.closures_of(fn)
+    divs = [(bb, t) for bb, t in fn.calls() if "callee" in t and t["callee"]["path"].endswith("arith::Div<&'b types::number::Number>>::div")]
+    recs = [(bb, t) for bb, t in fn.calls() if "callee" in t and t["callee"]["path"].endswith("factorize::factorize")]
+    divisor_ok = quot_ok = rec_ok = False
+    item = None
+    if len(divs) == 1 and len(recs) == 1:
+        dv = fn.apath(divs[0][1]["args"][1])
+        # Number { value: Numeric::one(), unit: clone(item.0) }
+        if dv[0][0] == "agg" and str(dv[0][1]).endswith("number::Number::Number") and len(dv[0][2]) == 2 and not dv[1]:
+            one, unit = dv[0][2]
+            if one[0][0] == "call" and one[0][1].endswith("Numeric::one") and unit[0][0] == "call" and unit[0][1].endswith("Clone>::clone") and unit[0][2]:
+                u = unit[0][2][0]
+                if u[1][-3:-1] == ("as Some", "0") and u[1][-1] == "0" and "::next(" in ap_str(u) and "arg2" in ap_str(u):
+                    item = (u[0], u[1][:-1])
+                    divisor_ok = True
+        quot_ok = divisor_ok and ap_str(fn.apath(divs[0][1]["args"][0])) == "arg1"
+        ra = fn.apath(recs[0][1]["args"][0])
+        while ra[0][0] == "call" and ra[0][2] and not ra[1] and ra[0][1].endswith(("Option::<T>::unwrap", "Option::<T>::expect")):
+            ra = ra[0][2][0]
+        rec_ok = quot_ok and k2._root_call_bb(ra) == divs[0][0] and not ra[1] and ap_str(fn.apath(recs[0][1]["args"][1])) == "arg2"
+    # the name pushed onto every product of the recursion is the name paired with that unit: clone(item.1), in factorize or in a
+    # closure of it that captured it
+    name_pushes = 0
+    other_pushes = []
+    for g in code:
+        cap = None
+        if g is not fn:
+            for i, j, st in fn.stmts():
+                rv = st.get("rv", {})
+                if rv.get("k") == "agg" and rv.get("agg") == "closure" and rv["closure"]["id"] == g.id:
+                    cap = [fn.apath(o) for o in rv["ops"]]
+        for bb, t in g.calls():
+            if "callee" not in t or not t["callee"]["path"].endswith("Vec::<T, A>::push") or "String" not in (t["args"][1].get("move") or t["args"][1].get("copy") or {}).get("ty", "String"):
+                continue
+            v = g.apath(t["args"][1])
+            if v[0][0] == "call" and v[0][1].endswith("Clone>::clone") and v[0][2]:
+                src = v[0][2][0]
+                if g is not fn and cap is not None and src[0] == ("arg", 1) and src[1] and str(src[1][0]).isdigit() and int(src[1][0]) < len(cap):
+                    c0 = cap[int(src[1][0])]
+                    src = (c0[0], c0[1] + src[1][1:])
+                if item is not None and facts.ap_match(src, (item[0], item[1] + ("1",))):
+                    name_pushes += 1
+                    continue
+            if "Rc<alloc::string::String>" in str(t["args"][1]) or "String" in str(t["args"][1].get("move", t["args"][1].get("copy", {})).get("ty", "")):
+                other_pushes.append(ap_str(v)[-60:])
+    chk.decide(divisor_ok and quot_ok and rec_ok and name_pushes == 1 and not other_pushes, "factorize-structure", fk, "name-paired-with-divisor", "%s:%d" % (fn.file, line),
                "each product divides the value by `unit`, recurses on that quotient and appends the `name` paired with the same `unit`",
-               "the pushed quantity name, the divisor and the recursive argument are not tied to one (unit, name) pair (divisor %s, quotient %s, recursion %s, name pushes %d)" % (divisor_ok, quot_ok, rec_ok, len(pushes)))
-    mcs = [m["name"] for m in H.method_calls(lbody)]
-    order_ok = "into_sorted_vec" in mcs and "dedup" in mcs and "take" in mcs
-    chk.decide(order_ok, "factorize-structure", fk, "sort-dedup-take", "%s:%d" % (fn.file, line), "candidates are sorted, deduplicated and truncated to the best ten", "sort/dedup/take chain missing in factorize (%s)" % [m for m in mcs if m in ("into_sorted_vec", "dedup", "take", "sort")])
+               "the pushed quantity name, the divisor and the recursive argument are not tied to one (unit, name) pair (divisor %s, quotient %s, recursion %s, name pushes %d%s)" % (
+                   divisor_ok, quot_ok, rec_ok, name_pushes, (", other names pushed: %s" % other_pushes) if other_pushes else ""))
+    names_ = [t["callee"]["path"].split("::")[-1] for g in code for _, t in g.calls() if "callee" in t]
+    cut = [t for _, t in fn.calls() if "callee" in t and (t["callee"]["path"].endswith(("Iterator::take", "Iterator>::take")) or t["callee"]["path"].endswith("Vec::<T, A>::truncate"))
+           and (facts.const_of(t["args"][1]) or {}).get("int") == 10]
+    order_ok = "into_sorted_vec" in names_ and "dedup" in names_ and bool(cut)
+    chk.decide(order_ok, "factorize-structure", fk, "sort-dedup-take", "%s:%d" % (fn.file, line), "candidates are sorted, deduplicated and truncated to the best ten", "sort/dedup/take chain missing in factorize (%s)" % [m for m in names_ if m in ("into_sorted_vec", "dedup", "take", "truncate", "sort")])
     # eval_query's Factorize arm: sorted then dedup before building the reply
     efn, arm = query_arm(F, "Factorize")
     calls = [(c["line"], c["name"]) for c in H.method_calls(arm["body"]) if c["name"] in ("into_sorted_vec", "dedup", "sort", "dedup_by_key", "dedup_by")]
